@@ -261,6 +261,7 @@ func init() {
 	Properties["C11"] = &PropertySpec{
 		Modules: st,
 		Rules: []Rule{
+			R78(),
 			R67(),
 			Only(R56(), `^b/write-time-field`),
 			Only(R58(), `^c/`, `^e/`),
